@@ -129,6 +129,10 @@ class TlsExtensionBase(ParsableBase):
         if parser.unparsed_length < parser['extension_length']:
             raise NotEnoughData(parser['extension_length'] + parser.parsed_length)
 
+        if parser.unparsed_length > parser['extension_length']:
+            # the extension ends where its length field says, whatever the lengths inside its data claim
+            return cls._check_header(parsable[:parser.parsed_length + parser['extension_length']])
+
         return parser
 
     def _compose_header(self, payload_length):
